@@ -144,22 +144,25 @@ structure ViewEq (a b : Enc) : Prop where
   celtState : a.celtState = b.celtState
   toMono : b.prevChannels = 2 → a.silkMode.toMono = b.silkMode.toMono
   useDTX : (b.prevMode = MODE_SILK_ONLY ∨ b.prevMode = MODE_HYBRID ∨ b.nbNoActivityMsQ1 ≠ 0 ∨ b.silkState ≠ .fresh) → a.silkMode.useDTX = b.silkMode.useDTX
+  nChInt : (b.prevMode = MODE_SILK_ONLY ∨ b.prevMode = MODE_HYBRID) → a.silkMode.nChannelsInternal = b.silkMode.nChannelsInternal
   canSwitch : b.silkState ≠ .fresh → a.silkMode.opusCanSwitch = b.silkMode.opusCanSwitch
 
 theorem viewEq_of_view {a b : Enc} (h : view a = view b) : ViewEq a b := by
   simp only [view, View.mk.injEq] at h
-  obtain ⟨h_celtEncOffset, h_silkEncOffset, h_application, h_channels, h_delayCompensation, h_forceChannels, h_signalType, h_userBandwidth, h_maxBandwidth, h_userForcedMode, h_voiceRatio, h_fs, h_useVbr, h_vbrConstraint, h_variableDuration, h_userBitrateBps, h_lsbDepth, h_encoderBuffer, h_lfe, h_arch, h_useDtx, h_fecConfig, h_analysisApp, h_analysis, h_streamChannels, h_hybridStereoWidthQ14, h_variableHPsmth2Q15, h_prevHBgain, h_hpMem, h_mode, h_prevMode, h_prevChannels, h_prevFramesize, h_bandwidth, h_autoBandwidth, h_silkBwSwitch, h_first, h_energyMasking, h_widthMem, h_delayBuffer, h_detectedBandwidth, h_nbNoActivityMsQ1, h_peakSignalEnergy, h_nonfinalFrame, h_rangeFinal, h_packetLossPercentage, h_complexity, h_useInBandFEC, h_useDRED, h_reducedDependency, h_lbrrCoded, h_allowBandwidthSwitch, h_inWBmodeWithoutVariableLP, g_toMonoGated, g_useDTXGated, g_opusCanSwitchGated, h_celtChannels, h_celtForceIntra, h_celtClip, h_celtDisablePf, h_celtComplexity, h_celtUpsample, h_celtSignalling, h_celtLossRate, h_celtLfe, h_celtDisableInv, h_celtArch, h_silkState, h_celtState⟩ := h
-  refine { celtEncOffset := h_celtEncOffset, silkEncOffset := h_silkEncOffset, application := h_application, channels := h_channels, delayCompensation := h_delayCompensation, forceChannels := h_forceChannels, signalType := h_signalType, userBandwidth := h_userBandwidth, maxBandwidth := h_maxBandwidth, userForcedMode := h_userForcedMode, voiceRatio := h_voiceRatio, fs := h_fs, useVbr := h_useVbr, vbrConstraint := h_vbrConstraint, variableDuration := h_variableDuration, userBitrateBps := h_userBitrateBps, lsbDepth := h_lsbDepth, encoderBuffer := h_encoderBuffer, lfe := h_lfe, arch := h_arch, useDtx := h_useDtx, fecConfig := h_fecConfig, analysisApp := h_analysisApp, analysis := h_analysis, streamChannels := h_streamChannels, hybridStereoWidthQ14 := h_hybridStereoWidthQ14, variableHPsmth2Q15 := h_variableHPsmth2Q15, prevHBgain := h_prevHBgain, hpMem := h_hpMem, mode := h_mode, prevMode := h_prevMode, prevChannels := h_prevChannels, prevFramesize := h_prevFramesize, bandwidth := h_bandwidth, autoBandwidth := h_autoBandwidth, silkBwSwitch := h_silkBwSwitch, first := h_first, energyMasking := h_energyMasking, widthMem := h_widthMem, delayBuffer := h_delayBuffer, detectedBandwidth := h_detectedBandwidth, nbNoActivityMsQ1 := h_nbNoActivityMsQ1, peakSignalEnergy := h_peakSignalEnergy, nonfinalFrame := h_nonfinalFrame, rangeFinal := h_rangeFinal, packetLossPercentage := h_packetLossPercentage, complexity := h_complexity, useInBandFEC := h_useInBandFEC, useDRED := h_useDRED, reducedDependency := h_reducedDependency, lbrrCoded := h_lbrrCoded, allowBandwidthSwitch := h_allowBandwidthSwitch, inWBmodeWithoutVariableLP := h_inWBmodeWithoutVariableLP, celtChannels := h_celtChannels, celtForceIntra := h_celtForceIntra, celtClip := h_celtClip, celtDisablePf := h_celtDisablePf, celtComplexity := h_celtComplexity, celtUpsample := h_celtUpsample, celtSignalling := h_celtSignalling, celtLossRate := h_celtLossRate, celtLfe := h_celtLfe, celtDisableInv := h_celtDisableInv, celtArch := h_celtArch, silkState := h_silkState, celtState := h_celtState, toMono := ?_, useDTX := ?_, canSwitch := ?_ }
+  obtain ⟨h_celtEncOffset, h_silkEncOffset, h_application, h_channels, h_delayCompensation, h_forceChannels, h_signalType, h_userBandwidth, h_maxBandwidth, h_userForcedMode, h_voiceRatio, h_fs, h_useVbr, h_vbrConstraint, h_variableDuration, h_userBitrateBps, h_lsbDepth, h_encoderBuffer, h_lfe, h_arch, h_useDtx, h_fecConfig, h_analysisApp, h_analysis, h_streamChannels, h_hybridStereoWidthQ14, h_variableHPsmth2Q15, h_prevHBgain, h_hpMem, h_mode, h_prevMode, h_prevChannels, h_prevFramesize, h_bandwidth, h_autoBandwidth, h_silkBwSwitch, h_first, h_energyMasking, h_widthMem, h_delayBuffer, h_detectedBandwidth, h_nbNoActivityMsQ1, h_peakSignalEnergy, h_nonfinalFrame, h_rangeFinal, h_packetLossPercentage, h_complexity, h_useInBandFEC, h_useDRED, h_reducedDependency, h_lbrrCoded, h_allowBandwidthSwitch, h_inWBmodeWithoutVariableLP, g_toMonoGated, g_useDTXGated, g_nChannelsInternalGated, g_opusCanSwitchGated, h_celtChannels, h_celtForceIntra, h_celtClip, h_celtDisablePf, h_celtComplexity, h_celtUpsample, h_celtSignalling, h_celtLossRate, h_celtLfe, h_celtDisableInv, h_celtArch, h_silkState, h_celtState⟩ := h
+  refine { celtEncOffset := h_celtEncOffset, silkEncOffset := h_silkEncOffset, application := h_application, channels := h_channels, delayCompensation := h_delayCompensation, forceChannels := h_forceChannels, signalType := h_signalType, userBandwidth := h_userBandwidth, maxBandwidth := h_maxBandwidth, userForcedMode := h_userForcedMode, voiceRatio := h_voiceRatio, fs := h_fs, useVbr := h_useVbr, vbrConstraint := h_vbrConstraint, variableDuration := h_variableDuration, userBitrateBps := h_userBitrateBps, lsbDepth := h_lsbDepth, encoderBuffer := h_encoderBuffer, lfe := h_lfe, arch := h_arch, useDtx := h_useDtx, fecConfig := h_fecConfig, analysisApp := h_analysisApp, analysis := h_analysis, streamChannels := h_streamChannels, hybridStereoWidthQ14 := h_hybridStereoWidthQ14, variableHPsmth2Q15 := h_variableHPsmth2Q15, prevHBgain := h_prevHBgain, hpMem := h_hpMem, mode := h_mode, prevMode := h_prevMode, prevChannels := h_prevChannels, prevFramesize := h_prevFramesize, bandwidth := h_bandwidth, autoBandwidth := h_autoBandwidth, silkBwSwitch := h_silkBwSwitch, first := h_first, energyMasking := h_energyMasking, widthMem := h_widthMem, delayBuffer := h_delayBuffer, detectedBandwidth := h_detectedBandwidth, nbNoActivityMsQ1 := h_nbNoActivityMsQ1, peakSignalEnergy := h_peakSignalEnergy, nonfinalFrame := h_nonfinalFrame, rangeFinal := h_rangeFinal, packetLossPercentage := h_packetLossPercentage, complexity := h_complexity, useInBandFEC := h_useInBandFEC, useDRED := h_useDRED, reducedDependency := h_reducedDependency, lbrrCoded := h_lbrrCoded, allowBandwidthSwitch := h_allowBandwidthSwitch, inWBmodeWithoutVariableLP := h_inWBmodeWithoutVariableLP, celtChannels := h_celtChannels, celtForceIntra := h_celtForceIntra, celtClip := h_celtClip, celtDisablePf := h_celtDisablePf, celtComplexity := h_celtComplexity, celtUpsample := h_celtUpsample, celtSignalling := h_celtSignalling, celtLossRate := h_celtLossRate, celtLfe := h_celtLfe, celtDisableInv := h_celtDisableInv, celtArch := h_celtArch, silkState := h_silkState, celtState := h_celtState, toMono := ?_, useDTX := ?_, nChInt := ?_, canSwitch := ?_ }
   · intro hp; rw [h_prevChannels, if_pos hp, if_pos hp] at g_toMonoGated; exact g_toMonoGated
   · intro hp; rw [h_prevMode, h_nbNoActivityMsQ1, h_silkState, if_pos hp, if_pos hp] at g_useDTXGated; exact g_useDTXGated
+  · intro hp; rw [h_prevMode, if_pos hp, if_pos hp] at g_nChannelsInternalGated; exact g_nChannelsInternalGated
   · intro hp; rw [h_silkState, if_neg hp, if_neg hp] at g_opusCanSwitchGated; exact g_opusCanSwitchGated
 
 theorem view_of_viewEq {a b : Enc} (h : ViewEq a b) : view a = view b := by
-  obtain ⟨h_celtEncOffset, h_silkEncOffset, h_application, h_channels, h_delayCompensation, h_forceChannels, h_signalType, h_userBandwidth, h_maxBandwidth, h_userForcedMode, h_voiceRatio, h_fs, h_useVbr, h_vbrConstraint, h_variableDuration, h_userBitrateBps, h_lsbDepth, h_encoderBuffer, h_lfe, h_arch, h_useDtx, h_fecConfig, h_analysisApp, h_analysis, h_streamChannels, h_hybridStereoWidthQ14, h_variableHPsmth2Q15, h_prevHBgain, h_hpMem, h_mode, h_prevMode, h_prevChannels, h_prevFramesize, h_bandwidth, h_autoBandwidth, h_silkBwSwitch, h_first, h_energyMasking, h_widthMem, h_delayBuffer, h_detectedBandwidth, h_nbNoActivityMsQ1, h_peakSignalEnergy, h_nonfinalFrame, h_rangeFinal, h_packetLossPercentage, h_complexity, h_useInBandFEC, h_useDRED, h_reducedDependency, h_lbrrCoded, h_allowBandwidthSwitch, h_inWBmodeWithoutVariableLP, h_celtChannels, h_celtForceIntra, h_celtClip, h_celtDisablePf, h_celtComplexity, h_celtUpsample, h_celtSignalling, h_celtLossRate, h_celtLfe, h_celtDisableInv, h_celtArch, h_silkState, h_celtState, g1, g2, g3⟩ := h
+  obtain ⟨h_celtEncOffset, h_silkEncOffset, h_application, h_channels, h_delayCompensation, h_forceChannels, h_signalType, h_userBandwidth, h_maxBandwidth, h_userForcedMode, h_voiceRatio, h_fs, h_useVbr, h_vbrConstraint, h_variableDuration, h_userBitrateBps, h_lsbDepth, h_encoderBuffer, h_lfe, h_arch, h_useDtx, h_fecConfig, h_analysisApp, h_analysis, h_streamChannels, h_hybridStereoWidthQ14, h_variableHPsmth2Q15, h_prevHBgain, h_hpMem, h_mode, h_prevMode, h_prevChannels, h_prevFramesize, h_bandwidth, h_autoBandwidth, h_silkBwSwitch, h_first, h_energyMasking, h_widthMem, h_delayBuffer, h_detectedBandwidth, h_nbNoActivityMsQ1, h_peakSignalEnergy, h_nonfinalFrame, h_rangeFinal, h_packetLossPercentage, h_complexity, h_useInBandFEC, h_useDRED, h_reducedDependency, h_lbrrCoded, h_allowBandwidthSwitch, h_inWBmodeWithoutVariableLP, h_celtChannels, h_celtForceIntra, h_celtClip, h_celtDisablePf, h_celtComplexity, h_celtUpsample, h_celtSignalling, h_celtLossRate, h_celtLfe, h_celtDisableInv, h_celtArch, h_silkState, h_celtState, g1, g2, g3, g4⟩ := h
   simp only [view, View.mk.injEq]
-  refine ⟨h_celtEncOffset, h_silkEncOffset, h_application, h_channels, h_delayCompensation, h_forceChannels, h_signalType, h_userBandwidth, h_maxBandwidth, h_userForcedMode, h_voiceRatio, h_fs, h_useVbr, h_vbrConstraint, h_variableDuration, h_userBitrateBps, h_lsbDepth, h_encoderBuffer, h_lfe, h_arch, h_useDtx, h_fecConfig, h_analysisApp, h_analysis, h_streamChannels, h_hybridStereoWidthQ14, h_variableHPsmth2Q15, h_prevHBgain, h_hpMem, h_mode, h_prevMode, h_prevChannels, h_prevFramesize, h_bandwidth, h_autoBandwidth, h_silkBwSwitch, h_first, h_energyMasking, h_widthMem, h_delayBuffer, h_detectedBandwidth, h_nbNoActivityMsQ1, h_peakSignalEnergy, h_nonfinalFrame, h_rangeFinal, h_packetLossPercentage, h_complexity, h_useInBandFEC, h_useDRED, h_reducedDependency, h_lbrrCoded, h_allowBandwidthSwitch, h_inWBmodeWithoutVariableLP, ?_, ?_, ?_, h_celtChannels, h_celtForceIntra, h_celtClip, h_celtDisablePf, h_celtComplexity, h_celtUpsample, h_celtSignalling, h_celtLossRate, h_celtLfe, h_celtDisableInv, h_celtArch, h_silkState, h_celtState⟩
+  refine ⟨h_celtEncOffset, h_silkEncOffset, h_application, h_channels, h_delayCompensation, h_forceChannels, h_signalType, h_userBandwidth, h_maxBandwidth, h_userForcedMode, h_voiceRatio, h_fs, h_useVbr, h_vbrConstraint, h_variableDuration, h_userBitrateBps, h_lsbDepth, h_encoderBuffer, h_lfe, h_arch, h_useDtx, h_fecConfig, h_analysisApp, h_analysis, h_streamChannels, h_hybridStereoWidthQ14, h_variableHPsmth2Q15, h_prevHBgain, h_hpMem, h_mode, h_prevMode, h_prevChannels, h_prevFramesize, h_bandwidth, h_autoBandwidth, h_silkBwSwitch, h_first, h_energyMasking, h_widthMem, h_delayBuffer, h_detectedBandwidth, h_nbNoActivityMsQ1, h_peakSignalEnergy, h_nonfinalFrame, h_rangeFinal, h_packetLossPercentage, h_complexity, h_useInBandFEC, h_useDRED, h_reducedDependency, h_lbrrCoded, h_allowBandwidthSwitch, h_inWBmodeWithoutVariableLP, ?_, ?_, ?_, ?_, h_celtChannels, h_celtForceIntra, h_celtClip, h_celtDisablePf, h_celtComplexity, h_celtUpsample, h_celtSignalling, h_celtLossRate, h_celtLfe, h_celtDisableInv, h_celtArch, h_silkState, h_celtState⟩
   · rw [h_prevChannels]; split <;> simp_all
   · rw [h_prevMode, h_nbNoActivityMsQ1, h_silkState]; split <;> simp_all
+  · rw [h_prevMode]; split <;> simp_all
   · rw [h_silkState]; split <;> simp_all
 
 theorem viewEq_refl (a : Enc) : ViewEq a a := viewEq_of_view rfl
@@ -210,16 +213,23 @@ theorem encodeStep_congr (O : Oracles) {a b : Enc} (x : Inp) (h : view a = view 
   all_goals refine ⟨view_of_viewEq ?_, by first | trivial | rfl⟩
   · exact { he with rangeFinal := rfl }
   · exact { he with analysis := rfl, peakSignalEnergy := rfl, voiceRatio := rfl, detectedBandwidth := rfl, widthMem := rfl, rangeFinal := rfl }
-  · by_cases hr : (O.phaseB (view b) (O.phaseA (view b) x) x).silkRan = true
+  · -- SILK produced no output: prev_mode unchanged
+    by_cases hr : (O.phaseB (view b) (O.phaseA (view b) x) x).silkRan = true
     · simp only [hr, if_true]
-      exact { he with prevChannels := rfl, analysis := rfl, peakSignalEnergy := rfl, voiceRatio := rfl, detectedBandwidth := rfl, widthMem := rfl, rangeFinal := rfl, streamChannels := rfl, forceChannels := rfl, mode := rfl, bandwidth := rfl, autoBandwidth := rfl, celtState := rfl, celtForceIntra := rfl, celtDisablePf := rfl, hybridStereoWidthQ14 := rfl, variableHPsmth2Q15 := rfl, prevHBgain := rfl, hpMem := rfl, delayBuffer := rfl, silkBwSwitch := rfl, nonfinalFrame := rfl, lbrrCoded := rfl, toMono := fun _ => rfl, useDTX := fun _ => rfl, silkState := rfl, allowBandwidthSwitch := rfl, inWBmodeWithoutVariableLP := rfl, canSwitch := fun _ => rfl }
+      exact { he with prevChannels := rfl, analysis := rfl, peakSignalEnergy := rfl, voiceRatio := rfl, detectedBandwidth := rfl, widthMem := rfl, rangeFinal := rfl, streamChannels := rfl, forceChannels := rfl, mode := rfl, bandwidth := rfl, autoBandwidth := rfl, celtState := rfl, celtForceIntra := rfl, celtDisablePf := rfl, hybridStereoWidthQ14 := rfl, variableHPsmth2Q15 := rfl, prevHBgain := rfl, hpMem := rfl, delayBuffer := rfl, silkBwSwitch := rfl, nonfinalFrame := rfl, lbrrCoded := rfl, toMono := fun _ => rfl, useDTX := fun _ => rfl, silkState := rfl, allowBandwidthSwitch := rfl, inWBmodeWithoutVariableLP := rfl, canSwitch := fun _ => rfl, nChInt := fun _ => rfl }
     · simp only [hr]
       exact { he with prevChannels := rfl, analysis := rfl, peakSignalEnergy := rfl, voiceRatio := rfl, detectedBandwidth := rfl, widthMem := rfl, rangeFinal := rfl, streamChannels := rfl, forceChannels := rfl, mode := rfl, bandwidth := rfl, autoBandwidth := rfl, celtState := rfl, celtForceIntra := rfl, celtDisablePf := rfl, hybridStereoWidthQ14 := rfl, variableHPsmth2Q15 := rfl, prevHBgain := rfl, hpMem := rfl, delayBuffer := rfl, silkBwSwitch := rfl, nonfinalFrame := rfl, lbrrCoded := rfl, toMono := fun _ => rfl, useDTX := fun _ => rfl }
-  · by_cases hr : (O.phaseB (view b) (O.phaseA (view b) x) x).silkRan = true
-    · simp only [hr, if_true]
-      exact { he with analysis := rfl, peakSignalEnergy := rfl, voiceRatio := rfl, detectedBandwidth := rfl, widthMem := rfl, rangeFinal := rfl, streamChannels := rfl, forceChannels := rfl, mode := rfl, bandwidth := rfl, autoBandwidth := rfl, celtState := rfl, celtForceIntra := rfl, celtDisablePf := rfl, hybridStereoWidthQ14 := rfl, variableHPsmth2Q15 := rfl, prevHBgain := rfl, hpMem := rfl, delayBuffer := rfl, silkBwSwitch := rfl, nonfinalFrame := rfl, lbrrCoded := rfl, toMono := fun _ => rfl, useDTX := fun _ => rfl, silkState := rfl, allowBandwidthSwitch := rfl, inWBmodeWithoutVariableLP := rfl, canSwitch := fun _ => rfl, prevMode := rfl, prevChannels := rfl, prevFramesize := rfl, first := rfl, nbNoActivityMsQ1 := rfl }
-    · simp only [hr]
-      exact { he with analysis := rfl, peakSignalEnergy := rfl, voiceRatio := rfl, detectedBandwidth := rfl, widthMem := rfl, rangeFinal := rfl, streamChannels := rfl, forceChannels := rfl, mode := rfl, bandwidth := rfl, autoBandwidth := rfl, celtState := rfl, celtForceIntra := rfl, celtDisablePf := rfl, hybridStereoWidthQ14 := rfl, variableHPsmth2Q15 := rfl, prevHBgain := rfl, hpMem := rfl, delayBuffer := rfl, silkBwSwitch := rfl, nonfinalFrame := rfl, lbrrCoded := rfl, toMono := fun _ => rfl, useDTX := fun _ => rfl, prevMode := rfl, prevChannels := rfl, prevFramesize := rfl, first := rfl, nbNoActivityMsQ1 := rfl }
+  · -- at least one frame completed
+    by_cases hw : isSilkMode (O.phaseB (view b) (O.phaseA (view b) x) x).prevMode = true
+    · simp only [hw, Bool.or_true, if_true]
+      exact { he with analysis := rfl, peakSignalEnergy := rfl, voiceRatio := rfl, detectedBandwidth := rfl, widthMem := rfl, rangeFinal := rfl, streamChannels := rfl, forceChannels := rfl, mode := rfl, bandwidth := rfl, autoBandwidth := rfl, celtState := rfl, celtForceIntra := rfl, celtDisablePf := rfl, hybridStereoWidthQ14 := rfl, variableHPsmth2Q15 := rfl, prevHBgain := rfl, hpMem := rfl, delayBuffer := rfl, silkBwSwitch := rfl, nonfinalFrame := rfl, lbrrCoded := rfl, toMono := fun _ => rfl, useDTX := fun _ => rfl, silkState := rfl, allowBandwidthSwitch := rfl, inWBmodeWithoutVariableLP := rfl, canSwitch := fun _ => rfl, nChInt := fun _ => rfl, prevMode := rfl, prevChannels := rfl, prevFramesize := rfl, first := rfl, nbNoActivityMsQ1 := rfl }
+    · have hw' : ¬ ((O.phaseB (view b) (O.phaseA (view b) x) x).prevMode = MODE_SILK_ONLY ∨ (O.phaseB (view b) (O.phaseA (view b) x) x).prevMode = MODE_HYBRID) := by
+        intro hg; apply hw; simpa [isSilkMode] using hg
+      by_cases hr : (O.phaseB (view b) (O.phaseA (view b) x) x).silkRan = true
+      · simp only [hw, hr, Bool.or_false, if_true]
+        exact { he with analysis := rfl, peakSignalEnergy := rfl, voiceRatio := rfl, detectedBandwidth := rfl, widthMem := rfl, rangeFinal := rfl, streamChannels := rfl, forceChannels := rfl, mode := rfl, bandwidth := rfl, autoBandwidth := rfl, celtState := rfl, celtForceIntra := rfl, celtDisablePf := rfl, hybridStereoWidthQ14 := rfl, variableHPsmth2Q15 := rfl, prevHBgain := rfl, hpMem := rfl, delayBuffer := rfl, silkBwSwitch := rfl, nonfinalFrame := rfl, lbrrCoded := rfl, toMono := fun _ => rfl, useDTX := fun _ => rfl, silkState := rfl, allowBandwidthSwitch := rfl, inWBmodeWithoutVariableLP := rfl, canSwitch := fun _ => rfl, nChInt := fun _ => rfl, prevMode := rfl, prevChannels := rfl, prevFramesize := rfl, first := rfl, nbNoActivityMsQ1 := rfl }
+      · simp only [hw, hr, Bool.or_false]
+        exact { he with analysis := rfl, peakSignalEnergy := rfl, voiceRatio := rfl, detectedBandwidth := rfl, widthMem := rfl, rangeFinal := rfl, streamChannels := rfl, forceChannels := rfl, mode := rfl, bandwidth := rfl, autoBandwidth := rfl, celtState := rfl, celtForceIntra := rfl, celtDisablePf := rfl, hybridStereoWidthQ14 := rfl, variableHPsmth2Q15 := rfl, prevHBgain := rfl, hpMem := rfl, delayBuffer := rfl, silkBwSwitch := rfl, nonfinalFrame := rfl, lbrrCoded := rfl, toMono := fun _ => rfl, useDTX := fun _ => rfl, prevMode := rfl, prevChannels := rfl, prevFramesize := rfl, first := rfl, nbNoActivityMsQ1 := rfl, nChInt := fun hg => absurd hg hw' }
 
 theorem view_encGet (G : GetOracle) {a b : Enc} (req : Int) (h : view a = view b) :
     encGet G a req = encGet G b req := by
